@@ -1,3 +1,3 @@
 #!/bin/bash
 # warms the Kani build cache (compiles the dependency tree once)
-cd "$(dirname "$0")" && cp ${VERIF_REPO:-/repo}/Cargo.lock Cargo.lock && echo "// prebuild" > src/windows_generated.rs && timeout 900 cargo kani -Z stubbing --harness proofs::explicit_len --exact --output-format terse > target-kani-prebuild.log 2>&1; tail -2 target-kani-prebuild.log
+cd "$(dirname "$0")" && cp ${VERIF_LOCK:-/repo/Cargo.lock} Cargo.lock && echo "// prebuild" > src/windows_generated.rs && timeout 900 cargo kani -Z stubbing --harness proofs::explicit_len --exact --output-format terse > target-kani-prebuild.log 2>&1; tail -2 target-kani-prebuild.log
